@@ -13,7 +13,8 @@ RULE = ('a genome of 1..4 contigs (with and without names containing "_", keep-a
         'name) as the sequence of contig groups (1..3 entries each, ids unique) x chunkings of the entries (one chunk, '
         'one entry per chunk, random cuts; all 2^(m-1) cuts for selected sequences). Three routes per data set: '
         'Genome.get_intervals/get_track/read_intervals(stream) under bnp.compute (get_data, start/stop, pileup sum), '
-        'MultiStream attribute / zip second slot / get_contingency_table+forbes+jaccard, left_join over groupby. '
+        'MultiStream attribute / zip first and second slot / get_contingency_table+forbes+jaccard — each with the data as a chunk '
+        'stream AND as one table held in memory —, left_join over groupby. '
         'non-trivial = at least two groups, or a group order that must raise')
 EXHAUSTIVE = {'quick': False, 'thorough': False}
 TIE = ('translator+correspondence: translate/gen_c12.py regenerates the decision rules (ignored/included, walked order, '
